@@ -1,5 +1,6 @@
 import TextxVerif.ProcLocate
 import TextxVerif.Proofs.ProcRaise
+import TextxVerif.Proofs.ProcMatch
 /-!
 # C33 — errors raised by processors carry the location of the processed text
 
@@ -289,6 +290,52 @@ theorem C33_load_fill_text (S : Script) (R : Raises) (srcs : List Src) (wrapped 
     obtain ⟨post, h1, _, _⟩ := C33_walk_cut mv.1 S R mv.2 mv.2.cls f hw
     exact ⟨mv, hm, walk_ids mv.1 S mv.2 mv.2.cls f.call (by rw [h1]; simp)⟩
 
+/-! ## D13: match processors inside composite match rules (`process_match`) -/
+
+/-- **Which match-processor call fails.** `process_match` makes its calls in
+post-order (sub-matches before the match they are part of, left to right) and
+stops at the first raising one: the calls of the tree are
+`f.log ++ f.call :: post`, nothing in `f.log` raises, `f.call` does. -/
+theorem C33_match_first_raise (R : Nat → Nat → Bool) (t : MNode) (f : MFail) (h : matchE R t = .error f) :
+    ∃ post, mcalls t = f.log ++ f.call :: post ∧ (∀ c ∈ f.log, R c.rule c.pos = false) ∧
+      R f.call.rule f.call.pos = true :=
+  cutP_some _ _ _ (matchE_error R t f h)
+
+/-- processing the tree fails iff some node's processor raises -/
+theorem C33_match_fails_iff (R : Nat → Nat → Bool) (t : MNode) :
+    (∃ f, matchE R t = .error f) ↔ ∃ c ∈ mcalls t, R c.rule c.pos = true := by
+  constructor
+  · rintro ⟨f, hf⟩
+    obtain ⟨post, h1, _, h3⟩ := C33_match_first_raise R t f hf
+    exact ⟨f.call, by rw [h1]; simp, h3⟩
+  · rintro ⟨c, hc, hr⟩
+    rw [matchE_lift]
+    unfold liftM
+    cases hcut : cutP (fun c => R c.rule c.pos) (mcalls t) with
+    | some r => exact ⟨_, rfl⟩
+    | none =>
+      have := (cutP_none_iff _ _).1 hcut c hc
+      rw [this] at hr
+      exact absurd hr (by simp)
+
+/-- **Located at the sub-match, not at the outermost match.** When the processor of a
+node of a (composite) match raises an unlocated `TextXError` — or any exception
+through `textxerror_wrap` — loading fails with a `TextXError` carrying the file and
+the line / column where *that node's* text starts (the counter-statement to seeded
+change C33-1, which reported every part at the start of the outermost match). -/
+theorem C33_match_fill_text (file : Option Nat) (text : List Char) (R : Nat → Nat → Bool) (wrapped : Bool)
+    (raised : Raised) (t : MNode) (f : MFail) (h : matchE R t = .error f)
+    (hpos : f.call.pos ≤ text.length)
+    (hr : raised = .textx ErrLoc.empty ∨ (wrapped = true ∧ raised = .other)) :
+    matchErr file text R wrapped raised t =
+      some (.textx (expectedText .mtch file text f.call.pos f.call.pos)) := by
+  unfold matchErr
+  rw [h]
+  simp only
+  rcases hr with hr | ⟨hw, hr⟩
+  · rw [hr, C33_fill_text .mtch _ _ _ _ _ hpos]
+  · rw [hr, hw, C33_wrap_text .mtch _ _ _ _ hpos]
+
 /-! non-vacuity -/
 example : outcome .obj ⟨some 1, 3, 4, 18⟩ true .other = .textx ⟨some 1, some 3, some 4, some 18⟩ := by decide
 example : outcome .mtch ⟨none, 3, 16, 4⟩ false (.textx ⟨none, none, some 5, none⟩) =
@@ -331,5 +378,17 @@ example : loadErr (fun _ _ => .none) (fun r i => r == 3 && i == 13)
     [⟨some 1, "m".toList, fun _ => (0, 1)⟩, ⟨some 2, "m a b\n b".toList, fun i => if i = 13 then (7, 8) else (0, 0)⟩]
     (fun _ => false) (fun _ _ => .textx ErrLoc.empty) [(exRM, .obj 1 0 .nil), (exRM, exRV)] =
     some (.textx ⟨some 2, some 2, some 2, some 1⟩) := by decide
+
+/-! `Version: Major '.' Minor;` at offset 6 of "pkg a 12.34": Major at 6, '.' at 8, Minor at 9; the
+processor of `Minor` (rule 2) raises: located at column 10, not at the start of `Version` (column 7) -/
+def exVersion : MNode := .nonterm 0 6 (.cons (.term 1 6) (.cons (.term 9 8) (.cons (.term 2 9) .nil)))
+
+example : (match matchE (fun r _ => r == 2) exVersion with
+    | .error f => some (f.log, f.call)
+    | .ok _ => none) = some ([⟨1, 6⟩, ⟨9, 8⟩], ⟨2, 9⟩) := by decide
+example : matchErr none "pkg a 12.34".toList (fun r _ => r == 2) false (.textx ErrLoc.empty) exVersion =
+    some (.textx ⟨none, some 1, some 10, none⟩) := by decide
+example : matchErr none "pkg a 12.34".toList (fun _ _ => false) false (.textx ErrLoc.empty) exVersion = none := by
+  decide
 
 end Proc
